@@ -217,6 +217,19 @@ CHECKS = {
                 "30 s after unregistration it must be neither served nor listed - probed every second across each edge.",
         "note": "between TTL and TTL+grace either behaviour is accepted (the grace constant of the implementation is not assumed)",
     },
+    "C17": {
+        "level": "exploration",
+        "design_ref": "DESIGN.md 3 C17",
+        "technique": "runtime monitor: 16-slot reference array + timer model compared after every command with presentValue/priorityArray read directly and over the wire",
+        "text": "All command sequences up to length 4/5 over 4 priorities x 3 values x {write, relinquish} on an analog and "
+                "a binary commandable object, and random histories of length 100 over all 16 priorities (plus writes "
+                "without priority, invalid priorities 0/17/-1/255/100) for each constructible commandable class, are "
+                "applied through direct WriteProperty calls and through WriteProperty requests to a real device stack; "
+                "after every command presentValue, all sixteen slots and the relinquish default are compared with a "
+                "reference array, also via ReadProperty over the LAN.  Binary objects with minimum on/off times 0..10 s "
+                "are driven under the virtual clock against a reference hold/release timer model.",
+        "note": "DateTimeValueCmdObject / DateTimePatternValueCmdObject cannot be instantiated at all (constructor raises) and are counted as cannot_build",
+    },
 }
 
 NOT_APPLICABLE = {pid: _PENDING for pid in ("C%02d" % i for i in range(1, 21)) if pid not in CHECKS}
